@@ -25,6 +25,9 @@ REQUIRED = {"concurrent_tour_lengths": 2000, "suite_runs": 1, "contract_tour_len
             "bound_attained_lower": 20, "bound_attained_upper": 20,
             "instances_all_perms": 20, "multiplier_instances": 30,
             "size_window_instances": 10, "big_kernel_tours": 6,
+            "every_city_count_kernel_calls": 1200,
+            "every_city_count_instances": 60,
+            "instances_built_from_a_stale_instance_object": 20,
             "instances_named_like_a_shipped_one": 20,
             "instances_from_tsplib_text": 50,
             "input_layout[F]": 30, "input_layout[T-view]": 30,
@@ -65,6 +68,37 @@ def big_kernel(ctx, rng):
                           f"= {want}", ctx.shard_replay_case(what="big"))
 
 
+def every_size(ctx, rng, part, parts):
+    """EVERY city count, not only windows around powers of two: the kernel
+    on plain matrices for 2..320 cities, whole instances (with their derived
+    bounds) for this shard's share of 2..72."""
+    from moptipyapps.tsp.tour_length import tour_length
+    for n in range(2, 321):
+        hi = int(rng.choice([3, 100, 10 ** 6]))
+        m = rng.integers(0, hi + 1, (n, n), dtype=np.int64)
+        np.fill_diagonal(m, 0)
+        if n % 2:
+            m = np.maximum(m, m.T)
+        x = rng.permutation(n).astype(
+            [np.int64, np.int16, np.uint16, np.int32][n % 4])
+        ctx.case()
+        ctx.count("every_city_count_kernel_calls")
+        v = tour_length(m, x)
+        xi = x.astype(np.int64)
+        want = int(m[np.roll(xi, 1), xi].sum())
+        if int(v) != want:
+            ctx.violation("tour-length-differs",
+                          f"tour_length on {n} cities = {v}, cyclic edge sum "
+                          f"= {want}", {"kind": "inst", "matrix": m.tolist(),
+                                        "mult": 1, "in_dtype": "int64",
+                                        "layout": "C"})
+            return
+    for n in range(9 + part, 73, parts):
+        m, tag = gen_matrix(rng, n)
+        ctx.count("every_city_count_instances")
+        one_instance(ctx, m, tag, 1, np.int64, False)
+
+
 def plan(tier: str, seed: int):
     # plus a thread-stress shard (vlib/threads.py)
     return _plan_nothreads(tier, seed) + [
@@ -75,6 +109,10 @@ def plan(tier: str, seed: int):
 def _plan_nothreads(tier: str, seed: int):
     rounds = 1 if tier == "quick" else 6
     return _plan(tier, seed) + [
+        # under NUMBA_DISABLE_JIT=1 (numpy scalar arithmetic in the storage
+        # types instead of machine integers)
+        {"name": "py0", "engine": "py", "timeout": 3000,
+         "args": {"n": 40 if tier == "quick" else 1500}}] + [
         {"name": f"suite{i}", "engine": "jit", "timeout": 3000,
          "args": {"mode": "suite", "tests": SUITE_TESTS,
                   "domains": SUITE_DOMAINS, "rounds": rounds}}
@@ -83,9 +121,11 @@ def _plan_nothreads(tier: str, seed: int):
 
 def _plan(tier: str, seed: int):
     if tier == "quick":
-        return [{"name": f"s{i}", "engine": "jit", "args": {"n": 260},
+        return [{"name": f"s{i}", "engine": "jit",
+                 "args": {"n": 260, "part": i, "parts": 4},
                  "timeout": 900} for i in range(4)]
-    return [{"name": f"s{i}", "engine": "jit", "args": {"n": 20000},
+    return [{"name": f"s{i}", "engine": "jit",
+             "args": {"n": 20000, "part": i % 2, "parts": 2},
              "timeout": 3400} for i in range(16)]
 
 
@@ -184,6 +224,9 @@ def fits(m, dt):
         max(r) for r in m) <= info.max
 
 
+STALE = [0]
+
+
 def one_instance(ctx, m, tag, mult, in_dtype, all_perms, layout=None):
     from moptipy.spaces.permutations import Permutations
 
@@ -220,6 +263,25 @@ def one_instance(ctx, m, tag, mult, in_dtype, all_perms, layout=None):
         # (tables of published optima are keyed by name)
         iname = str(rng.choice(SHIPPED_BY_N[n]))
         ctx.count("instances_named_like_a_shipped_one")
+    STALE[0] += 1
+    if STALE[0] % 6 == 0 and n >= 3 and layout == "C" \
+            and np.dtype(in_dtype).kind == "i":
+        # the matrix argument is itself an Instance - built for ANOTHER
+        # matrix (other symmetry, larger entries) and then overwritten in
+        # place with this one: what that object says about itself is stale
+        mm = np.array(m, np.int64)
+        other = np.maximum(mm, mm.T) * 2 + 1
+        np.fill_diagonal(other, 0)
+        if bool((mm == mm.T).all()):
+            other[0, 1] += 3
+        try:
+            src = Instance(iname + "o", 0, other)
+            if int(np.iinfo(src.dtype).max) >= int(mm.max()):
+                src[:, :] = mm
+                arr = src
+                ctx.count("instances_built_from_a_stale_instance_object")
+        except ValueError:
+            pass
     inst = Instance(iname, 0, arr,
                     mult)
     ctx.count("instances")
@@ -384,6 +446,8 @@ def run_shard(ctx, args):
         return threads_shard(ctx, args)
     rng = ctx.rng
     big_kernel(ctx, rng)
+    if "part" in args:
+        every_size(ctx, rng, args["part"], args["parts"])
     for it in range(args["n"]):
         n = int(rng.choice([2, 2, 3, 3, 4, 5, 6, 7, 8, 10, 13, 17, 25, 40]))
         if it % 10 == 7:
